@@ -65,7 +65,12 @@ def tree(draw):
             files['archive/deeper/x_%s' % tid] = b'nested'
     if draw(st.integers(0, 3)) == 0:
         files['emptydir/'] = None
-    return {'files': files, 'target': target, 'n_pels': n}
+    # names that shell-style matching treats specially
+    for k in range(draw(st.integers(0, 2))):
+        files[draw(st.sampled_from(['.hidden_%s', '.%s.pel', '[x]_%s', 'st*r_%s', 'q?_%s'])) % tid] = \
+            draw(st.one_of(random_bytes, st.just(b'')))
+    return {'files': files, 'target': target, 'n_pels': n,
+            'dirname': draw(st.sampled_from(['logs', 'logs', 'logs[1]', 'lo*gs', 'log?', '.logs', 'lo gs']))}
 
 
 @st.composite
@@ -111,10 +116,17 @@ def diff(before, after):
 def tree_snapshots(case, note):
     t, c = case
     with D.TempDir('c11') as top:
-        d = os.path.join(top, 'logs')
+        d = os.path.join(top, t.get('dirname', 'logs'))
         os.makedirs(d)
         files = {k.rstrip('/'): v for k, v in t['files'].items()}
         D.write_files(d, files)
+        # sibling directories that a pattern-interpreted path could reach; they must never be touched
+        for sib in ('logs1', 'logs', 'logx', 'loXgs'):
+            sp = os.path.join(top, sib)
+            if sp != d:
+                os.makedirs(sp, exist_ok=True)
+                with open(os.path.join(sp, 'sibling_%08X' % t['target']), 'wb') as fh:
+                    fh.write(b'sibling')
         outside = os.path.join(top, 'outside')
         os.makedirs(outside)
         exfile = os.path.join(top, 'exclude.txt')
